@@ -334,7 +334,8 @@ func (s String) RemoveSuffix(other Value) (String, Value) {
 	case CHAR_FLAG:
 		o := other.AsChar()
 		r, rLen := utf8.DecodeLastRuneInString(string(s))
-		if len(s) > 0 && r == rune(o) {
+		// an invalid trailing byte decodes to RuneError with length 1, it is not the suffix U+FFFD
+		if len(s) > 0 && r == rune(o) && (r != utf8.RuneError || rLen > 1) {
 			return s[0 : len(s)-rLen], Undefined
 		}
 		return s, Undefined
